@@ -11,6 +11,8 @@ import (
 	"fmt"
 	"os"
 	"strings"
+	"sync/atomic"
+	"time"
 )
 
 type prop struct {
@@ -41,7 +43,21 @@ func main() {
 	// HARNESS_FLUSH: log the input before executing it, so that a fatal runtime error
 	// (out of memory, stack exhaustion) is attributed to the input that caused it
 	flush := os.Getenv("HARNESS_FLUSH") != ""
+	// watchdog: a case that does not return (a lock never released, an endless loop) ends the process
+	// with exit code 70; with HARNESS_FLUSH the input that hangs is the last line written
+	var caseStart atomic.Int64
+	go func() {
+		for {
+			time.Sleep(time.Second)
+			if st := caseStart.Load(); st != 0 && time.Since(time.Unix(0, st)) > 60*time.Second {
+				fmt.Fprintln(os.Stderr, "watchdog: the case did not return within 60 s (hang)")
+				os.Exit(70)
+			}
+		}
+	}()
 	run := func(in string) {
+		caseStart.Store(time.Now().UnixNano())
+		defer caseStart.Store(0)
 		if flush {
 			w.WriteString(in)
 			w.WriteByte('\t')
